@@ -12,13 +12,15 @@ SITE = "nanite.fit.IndentationFitter._fit"
 
 
 def fit_k(cols, mk, k, range_type, range_x, segment, weight_cp, cp0,
-          edelta=False, ns=8, E0=None, fix_cp=False):
+          edelta=False, ns=8, E0=None, fix_cp=False, cp_bounds=None):
     from nanite import model
     idnt = curves.make_indentation(cols)
     p = model.models_available[mk].get_parameter_defaults()
     p["contact_point"].set(value=cp0)
     if fix_cp:
         p["contact_point"].set(vary=False)
+    if cp_bounds:
+        p["contact_point"].set(min=cp_bounds[0], max=cp_bounds[1])
     # corresponding starting point of the equivalent problem
     p["E"].set(value=float(E0 if E0 is not None else p["E"].value)
                * k ** (-fits.POWER[mk]))
@@ -53,7 +55,8 @@ def one_case(run, cfg):
             kws = dict(range_type="absolute" if rtype == "plateau" else rtype,
                        range_x=rx, segment=segment, weight_cp=weight, cp0=cp0,
                        edelta=(rtype == "plateau"), E0=E0,
-                       fix_cp=bool(cfg.get("fix_cp")))
+                       fix_cp=bool(cfg.get("fix_cp")),
+                       cp_bounds=cfg.get("cp_bounds"))
             ik, ck, pk = fit_k(*args, k=k, **kws)
             i1, c1, p1 = fit_k(*args, k=1.0, **kws)
         except BaseException as e:
@@ -199,10 +202,20 @@ def check(run):
         fix_cp = (i % 5 == 4) and rtype != "plateau"
         if fix_cp:
             cp0 = cp_true
+        cp_bounds = None
+        if i % 7 == 3 and rtype != "plateau" and not fix_cp:
+            # the user limits the contact point (measured units); the limits
+            # hold the true contact point in measured and in corrected units
+            cpb = 2.5e-7 if cp_true >= 0 else -2.5e-7
+            true = dict(true, contact_point=cpb)
+            cp0 = cpb * (1 + rng.uniform(-0.05, 0.05))
+            cp_bounds = [min(cpb, k * cpb) - 0.1 * abs(cpb),
+                         max(cpb, k * cpb) + 0.1 * abs(cpb)]
+            noise = 0.0
         cfg = {"model": mk, "k": k, "segment": segment, "range_type": rtype,
                "range_x": list(rx), "noise": noise, "weight_cp": weight,
                "cp0": cp0, "seed": i, "true": true, "E0": E0,
-               "fix_cp": fix_cp}
+               "fix_cp": fix_cp, "cp_bounds": cp_bounds}
         one_case(run, cfg)
     run.rule = ("metamorphic fits k vs 1 on synthetic power-law curves "
                 "(noise-free: 1e-6; noisy with weighting off: 5e-3) x three "
